@@ -923,6 +923,53 @@ func shrink(sg *Seg, f *failure) *Seg {
 	return cur
 }
 
+// probeReencode: a fragment whose traf has two truns (the second relying on the tfhd default duration) is
+// encoded, decoded, re-encoded with OptimizeTrun and decoded again; the samples must be unchanged.
+func probeReencode() *failure {
+	f, _ := mp4.CreateFragment(1, 1)
+	traf := f.Moof.Traf
+	traf.Tfhd.Flags |= 0x8
+	traf.Tfhd.DefaultSampleDuration = 10
+	for i := 0; i < 2; i++ {
+		f.AddFullSample(mp4.FullSample{Sample: mp4.Sample{Flags: 0x1010000, Dur: 20, Size: 1}, DecodeTime: uint64(20 * i), Data: []byte{byte(i)}})
+	}
+	tr2 := mp4.CreateTrun(1)
+	tr2.Flags = 0xe01 // no per-sample duration: the tfhd default applies
+	tr2.AddSamples([]mp4.Sample{{Flags: 0x1010000, Size: 1}, {Flags: 0x1010000, Size: 1}})
+	_ = traf.AddChild(tr2)
+	f.Mdat.AddSampleData([]byte{7, 8})
+	b0, c := encodeFrag(f, false, false)
+	if c != 'o' {
+		return &failure{"probe", "setup", "cannot encode the two-trun fragment"}
+	}
+	f1, c1 := decodeAll(b0, false)
+	f2, c2 := decodeAll(b0, false)
+	if c1 != 'o' || c2 != 'o' {
+		return &failure{"probe", "setup", "cannot decode the two-trun fragment"}
+	}
+	want, cw := getFull(f1.Segments[0].Fragments[0], nil)
+	b1, c := encodeFrag(f2.Segments[0].Fragments[0], true, false)
+	if cw != 'o' || c != 'o' {
+		return &failure{"probe", "setup", "cannot re-encode"}
+	}
+	f3, c3 := decodeAll(b1, false)
+	if c3 != 'o' {
+		return &failure{"TrafBox.OptimizeTfhdTrun", "reencode-decoded-multi-trun", "re-encoded fragment does not decode"}
+	}
+	got, cg := getFull(f3.Segments[0].Fragments[0], nil)
+	if cg != 'o' || len(got) != len(want) {
+		return &failure{"TrafBox.OptimizeTfhdTrun", "reencode-decoded-multi-trun",
+			fmt.Sprintf("after re-encoding the decoded fragment with OptimizeTrun GetFullSamples gives class %c, %d of %d samples (moof shrank, data offsets kept; tfhd default duration %d)",
+				cg, len(got), len(want), f3.Segments[0].Fragments[0].Moof.Traf.Tfhd.DefaultSampleDuration)}
+	}
+	for k := range want {
+		if d := sameFull(want[k], got[k]); d != "" {
+			return &failure{"TrafBox.OptimizeTfhdTrun", "reencode-decoded-multi-trun", "sample " + strconv.Itoa(k) + " differs in " + d}
+		}
+	}
+	return nil
+}
+
 func cmdSearch(seed uint64, n int) {
 	r := hx.NewRng(mixSeed(seed, 0x5ea7c4))
 	evals := 0
@@ -940,6 +987,10 @@ func cmdSearch(seed uint64, n int) {
 		}
 		w, _ := json.Marshal(small)
 		fmt.Fprintf(out, "FAIL\t%s\t%s\t%s\t%s\n", f2.site, f2.class, string(w), f2.desc)
+	}
+	evals++
+	if f := probeReencode(); f != nil {
+		fmt.Fprintf(out, "FAIL\t%s\t%s\t%s\t%s\n", f.site, f.class, "probe:reencode (harness/c05/main.go probeReencode)", f.desc)
 	}
 	// probes with metadata-only samples of huge payloads: only the data-offset oracle can be evaluated
 	big := []uint32{0xfffffff0, 0x80000000, 0x7ffffff0, 0x40000000}
@@ -979,6 +1030,14 @@ func cmdSearch(seed uint64, n int) {
 }
 
 func cmdReplay(w string) {
+	if strings.HasPrefix(w, "probe:reencode") {
+		if f := probeReencode(); f != nil {
+			fmt.Fprintf(out, "FAIL\t%s\t%s\t%s\t%s\n", f.site, f.class, w, f.desc)
+		} else {
+			fmt.Fprintln(out, "HOLDS")
+		}
+		return
+	}
 	var sg Seg
 	if err := json.Unmarshal([]byte(w), &sg); err != nil {
 		fmt.Fprintln(out, "bad witness:", err)
